@@ -77,8 +77,8 @@ def const_is(v):
     return f
 
 
-def r033(cg, rep):
-    rep.rule('R03.3', 'for every statement and short-circuit form, each path through the emitted code is an execution of the C abstract machine: evaluation order, truth tests on the right operand with the right width, continue/break label placement, result value', floor=40)
+def r_logic(cg, rep, rule):
+    """&& and ||: left operand first, right operand only when needed, each operand tested for zero at its own type, result 0/1"""
     any_scalar = lambda label: cg.tcell(label, only=SCALARS)
     # --- expression level -------------------------------------------------------------
     def mk_logic(kind):
@@ -89,12 +89,19 @@ def r033(cg, rep):
             n.fields['rhs'] = cg.node('rhs', ty=any_scalar('rty'))
             return n
         return mk
-    skeleton(cg, rep, 'R03.3', 'gen_expr', 'ND_LOGAND', mk_logic('ND_LOGAND'),
+    skeleton(cg, rep, rule, 'gen_expr', 'ND_LOGAND', mk_logic('ND_LOGAND'),
              lambda it, ctx: (r'^E:lhs (T:lhs:0|T:lhs:1 E:rhs T:rhs:[01]) END$', ''),
              result=lambda s, it, ctx, sig, cats: const_is(1 if sig.endswith('T:rhs:1 END') else 0)(s, it, ctx, sig, cats))
-    skeleton(cg, rep, 'R03.3', 'gen_expr', 'ND_LOGOR', mk_logic('ND_LOGOR'),
+    skeleton(cg, rep, rule, 'gen_expr', 'ND_LOGOR', mk_logic('ND_LOGOR'),
              lambda it, ctx: (r'^E:lhs (T:lhs:1|T:lhs:0 E:rhs T:rhs:[01]) END$', ''),
              result=lambda s, it, ctx, sig, cats: const_is(0 if sig.endswith('T:rhs:0 END') else 1)(s, it, ctx, sig, cats))
+
+
+
+def r033(cg, rep):
+    rep.rule('R03.3', 'for every statement and short-circuit form, each path through the emitted code is an execution of the C abstract machine: evaluation order, truth tests on the right operand with the right width, continue/break label placement, result value', floor=40)
+    any_scalar = lambda label: cg.tcell(label, only=SCALARS)
+    r_logic(cg, rep, 'R03.3')
 
     def mk_cond(ctx):
         n = cg.node('node', 'ND_COND')
@@ -413,7 +420,9 @@ def r035(P, rep):
         if f not in pu.functions:
             raise AnalysisBroken('parse.c: %s vanished' % f)
     from ..interp import Cell
-    for fn, field in (('find_var', 'vars'), ('find_tag', 'tags')):
+    if 'find_typedef' not in pu.functions:
+        raise AnalysisBroken('parse.c: find_typedef vanished')
+    for fn, field, proj in (('find_var', 'vars', None), ('find_tag', 'tags', None), ('find_typedef', 'vars', 'type_def')):
         def gscope(ctx):
             return Obj('Scope', lazy=True, label='scope')
         it = Interp(P, pu, {'opaque': ['hashmap_get2', 'hashmap_get'], 'loop_limit': 2, 'globals': {'scope': gscope}})
@@ -434,7 +443,22 @@ def r035(P, rep):
                 if isinstance(r, Obj) or (isinstance(r, Sym) and 0 in ctx.neq.get(r.key(), ())):
                     hit = r; break
             ret = it.settle(out[1]) if isinstance(out[1], View) else out[1]
-            if hit is not None:
+            if proj is not None and not looks:
+                continue        # not an identifier: nothing is looked up
+            if hit is not None and proj is not None:
+                # a typedef name is what the innermost declaration of the identifier says it is: an inner ordinary identifier hides an outer typedef
+                last = it.settle(looks[-1][4]) if isinstance(looks[-1][4], View) else looks[-1][4]
+                want_ret = hit.fields.get(proj) if isinstance(hit, Obj) else None
+                want_ret = it.settle(want_ret) if isinstance(want_ret, View) else want_ret
+                same = (want_ret is not None and ret is want_ret) or \
+                       (isinstance(want_ret, View) and isinstance(out[1], View) and out[1].cell is want_ret.cell)
+                if isinstance(hit, Sym):
+                    from ..interp import Term, vkey
+                    same = isinstance(ret, Term) and vkey(ret) == vkey(Term('load', Term('.', hit, proj)))
+                rep.ob('R03.5', 'parse.c:%s:innermost-declaration-decides' % fn, last is hit and same,
+                       '%s does not answer with the %s of the innermost declaration of the identifier%s: an ordinary identifier declared in an inner scope no longer hides an outer typedef name (C11 6.2.1p4)'
+                       % (fn, proj, '' if last is hit else ' (it keeps searching outer scopes after the first hit)'), where=where)
+            elif hit is not None:
                 last = it.settle(looks[-1][4]) if isinstance(looks[-1][4], View) else looks[-1][4]
                 rep.ob('R03.5', 'parse.c:%s:first-hit-wins' % fn, ret is hit and last is hit, '%s does not return the first (innermost) hit' % fn, where=where)
             else:
